@@ -606,7 +606,21 @@ func run(t *testing.T, sc Scenario) *core.Result {
 					w.Log.Add(name+":"+who, "client.close.ret", "")
 					// a recording client whose peer stopped reading: the write in progress runs into its
 					// deadline, then the TEARDOWN written by Close does (two write timeouts in a row)
-					if lim := baseBound + budget(hold0); d > lim {
+					// ... and more when the client's own media writer shares the connection with the request
+					// being written (publisher, back-channel talker; a client that keeps going after a
+					// failed PAUSE gets its writer back). A deadline belongs to the connection, not to the
+					// call: whenever the writer goroutine starts a write it moves the deadline of a request
+					// write (keep-alive, PAUSE) that is already blocked. Seen (seeds 31038218): keep-alive
+					// blocked, a small RTCP report still fits into the window and moves the deadline, the
+					// keep-alive times out one write timeout later, Close then waits for the writer's
+					// blocked write and for its own TEARDOWN: four write timeouts. The chain ends when
+					// nothing fits into the peer's window any more (a report or two); the bound below leaves
+					// room for that and still is a bound.
+					cb := baseBound
+					if (p.StallAtUS > 0 || p.Vanish) && p.Transport != "udp" && p.Transport != "mcast" && (p.Role == "publish" || sc.BackChan) {
+						cb = ms(sc.ReadTO) + 6*ms(sc.WriteTO)
+					}
+					if lim := cb + budget(hold0); d > lim {
 						w.Fail("c13/close-latency client", "Client.Close (%s, state %s) took %v of simulated time (bound %v)", p.Transport, st, d, lim)
 					}
 					if left := w.Net.OpenSockets(name); len(left) > 0 {
